@@ -20,6 +20,7 @@ import (
 	"encoding/base64"
 	"runtime"
 	"strconv"
+	"strings"
 	"unsafe"
 
 	"github.com/cloudwego/dynamicgo/internal/native/types"
@@ -282,21 +283,24 @@ func DecodeValue(src string, pos int) (ret int, v types.JsonState) {
 			return ret, types.JsonState{Vt: types.ValueType(ret)}
 		}
 		return ret, types.JsonState{Vt: types.V_FALSE}
-	case '-', '+', '0', '1', '2', '3', '4', '5', '6', '7', '8', '9':
-		var iv int64
-		ret, iv, _ = decodeInt64(src, pos)
-		if ret >= 0 {
-			return ret, types.JsonState{Vt: types.V_INTEGER, Iv: iv, Ep: int64(pos)}
-		} else if ret != -int(types.ERR_INVALID_NUMBER_FMT) {
+	case '-', '0', '1', '2', '3', '4', '5', '6', '7', '8', '9':
+		// check the number grammar first
+		ret = skipNumber(src, pos)
+		if ret < 0 {
 			return ret, types.JsonState{Vt: types.ValueType(ret)}
 		}
-		var fv float64
-		ret, fv, _ = decodeFloat64(src, pos)
-		if ret >= 0 {
-			return ret, types.JsonState{Vt: types.V_DOUBLE, Dv: fv, Ep: int64(pos)}
-		} else {
-			return ret, types.JsonState{Vt: types.ValueType(ret)}
+		num := src[pos:ret]
+		if strings.IndexAny(num, ".eE") < 0 {
+			if iv, err := strconv.ParseInt(num, 10, 64); err == nil {
+				return ret, types.JsonState{Vt: types.V_INTEGER, Iv: iv, Dv: float64(iv), Ep: int64(pos)}
+			}
+			// NOTICE: an integer beyond int64 is handled as a double
 		}
+		fv, err := strconv.ParseFloat(num, 64)
+		if err != nil && err.(*strconv.NumError).Err != strconv.ErrRange {
+			return -int(types.ERR_INVALID_CHAR), types.JsonState{Vt: -types.ValueType(types.ERR_INVALID_CHAR)}
+		}
+		return ret, types.JsonState{Vt: types.V_DOUBLE, Dv: fv, Ep: int64(pos)}
 	default:
 		return -int(types.ERR_INVALID_CHAR), types.JsonState{Vt: -types.ValueType(types.ERR_INVALID_CHAR)}
 	}
